@@ -702,6 +702,67 @@ def members_of(p: Dict[str, Any], mi: int, pc: int) -> List[Tuple[str, int]]:
     return list(out.items())
 
 
+def import_chain_intermediates(p: Dict[str, Any], oi: int, name: str) -> int:
+    """Number of modules between an importer of `name` from module oi and the module that defines the object (0: oi defines it)."""
+    n = 0
+    idx = module_index_by_qname(p)
+    while n < 8 and name not in top_level_defs(p, oi):
+        hit = None
+        depth = 0
+        for op in p["mods"][oi - 1]["ops"]:
+            depth += 1 if op["k"] == "class" else -1 if op["k"] == "endclass" else 0
+            if depth == 0 and op["k"] == "from" and op["as"] == name:
+                hit = op
+        if hit is None:
+            return n
+        ni = idx.get(resolve_import_target(p, oi, hit["lvl"], hit["m"]) or "")
+        if not ni:
+            return n
+        oi, name, n = ni, hit["orig"], n + 1
+    return n
+
+
+def import_source_modules(p: Dict[str, Any], mi: int, name: str) -> List[int]:
+    """The project modules named by the import statement(s) that bind `name` at module level of module mi (star imports included)."""
+    idx = module_index_by_qname(p)
+    out: List[int] = []
+    depth = 0
+    for op in p["mods"][mi - 1]["ops"]:
+        depth += 1 if op["k"] == "class" else -1 if op["k"] == "endclass" else 0
+        if depth == 0 and ((op["k"] == "from" and op["as"] == name) or op["k"] == "star"):
+            ti = idx.get(resolve_import_target(p, mi, op["lvl"], op["m"]) or "")
+            if ti:
+                out.append(ti)
+    return out
+
+
+def follow_import_chain(p: Dict[str, Any], oi: int, name: str, hops: int = 6) -> Optional[Tuple[int, str]]:
+    """`name` as bound at module level of module oi: the (module, name) that DEFINES the object, following plain
+       `from M import x [as name]` statements through intermediate modules; None when it cannot be read off statically."""
+    idx = module_index_by_qname(p)
+    for _ in range(hops):
+        if name in top_level_defs(p, oi):
+            return oi, name
+        depth, hit = 0, None
+        for op in p["mods"][oi - 1]["ops"]:
+            if op["k"] == "class":
+                depth += 1
+            elif op["k"] == "endclass":
+                depth -= 1
+            elif depth == 0 and op["k"] == "from" and op["as"] == name:
+                hit = op
+            elif depth == 0 and op["k"] in ("star", "import", "alias") and (op.get("as") == name or op["k"] == "star" or op.get("n") == name):
+                hit = None if op["k"] != "star" else hit
+        if hit is None:
+            return None
+        tq = resolve_import_target(p, oi, hit["lvl"], hit["m"])
+        ni = idx.get(tq or "")
+        if not ni or p["mods"][ni - 1]["broken"]:
+            return None
+        oi, name = ni, hit["orig"]
+    return None
+
+
 def expected_reexports(p: Dict[str, Any], multi: bool = False) -> List[Dict[str, Any]]:
     """
     The re-exports the property C07 talks about: module R imports name `orig` from project module O (not listing it
@@ -740,6 +801,16 @@ def expected_reexports(p: Dict[str, Any], multi: bool = False) -> List[Dict[str,
                     found.append({"site": [oi, pc], "kind": kind, "old": f"{tq}.{orig}",
                                   "new": ".".join(mod_path(p, ri - 1)) + "." + as_, "rex": ri, "origin": oi,
                                   "members": members_of(p, oi, pc) if kind == "class" else []})
+                elif as_ in R["all"] and orig not in defs and op["k"] == "from" and not (O["hasAll"] and orig in O["all"]) \
+                        and follow_import_chain(p, oi, orig) and follow_import_chain(p, oi, orig)[0] != ri:
+                    # the module it is imported from got the object by a plain import itself: the object is the one defined
+                    # at the end of the chain
+                    di, dname = follow_import_chain(p, oi, orig)
+                    kind, pc = top_level_defs(p, di)[dname]
+                    found.append({"site": [di, pc], "kind": kind, "old": ".".join(mod_path(p, di - 1)) + "." + dname,
+                                  "new": ".".join(mod_path(p, ri - 1)) + "." + as_, "rex": ri, "origin": di,
+                                  "intermediates": import_chain_intermediates(p, oi, orig),
+                                  "members": members_of(p, di, pc) if kind == "class" else []})
                 elif as_ in R["all"] and orig not in defs and idx.get(f"{tq}.{orig}") and not (O["hasAll"] and orig in O["all"]):
                     si = idx[f"{tq}.{orig}"]          # a sub-module re-exported (possibly under another name)
                     if f"{tq}.{orig}" != ".".join(mod_path(p, ri - 1)) + "." + as_:
